@@ -379,6 +379,7 @@ def boundary_cases(tier):
     out.append(dict(kind="multi"))
     out.append(dict(kind="extra-input"))
     out.append(dict(kind="writer-history"))
+    out.append(dict(kind="dict-api"))
     return out
 
 
@@ -425,6 +426,38 @@ def run_special(case, tier, res):
                 res.ev("names/%s/b%d" % (name, binary))
                 for m in msgs:
                     res.viol(dict(case, name=name, binary=binary), "name %r: %s" % (name, m), kind="names")
+        return
+    if k == "dict-api":
+        # documented alternative: `names` is a mapping name -> matrix or name -> (matrix, form)
+        Ms = {"alpha": make_matrix(3, 3, 0b110101011, "signs", False), "beta": make_matrix(2, 3, 0b011101, "mixcplx", True), "gam": np.zeros((2, 2))}
+        for binary, sparse, endian in itertools.product((True, False), ("auto", "bigmat", "nonbigmat", "dense"), ("=", "", ">")):
+            for style in ("plain", "withform", "mixed"):
+                if style == "plain":
+                    arg = dict(Ms)
+                    wforms = {"alpha": 1, "beta": 2, "gam": 6}
+                elif style == "withform":
+                    arg = {"alpha": (Ms["alpha"], 1), "beta": [Ms["beta"], 2], "gam": (Ms["gam"], 6)}
+                    wforms = {"alpha": 1, "beta": 2, "gam": 6}
+                else:
+                    arg = {"alpha": (Ms["alpha"], 6), "beta": Ms["beta"], "gam": (Ms["gam"], 1)}
+                    wforms = {"alpha": 6, "beta": 2, "gam": 1}
+                case2 = dict(case, binary=binary, sparse=sparse, endian=endian, style=style)
+                res.ev("dict-api/b%d/%s/%s" % (binary, sparse, style))
+                try:
+                    with warnings.catch_warnings():
+                        warnings.simplefilter("ignore")
+                        op4.write(fname, arg, binary=binary, sparse=sparse, endian=endian, digits=16)
+                        ln, lm, lf, lt = op4.load(fname, into="list")
+                except Exception as e:  # noqa
+                    res.viol(case2, "write(filename, mapping) raised %r" % (e,), kind="dict-api-raise")
+                    continue
+                if ln != list(arg) or [int(f) for f in lf] != [wforms[n] for n in ln]:
+                    res.viol(case2, "write(filename, mapping): names/forms read back %s/%s, written %s/%s" % (ln, lf, list(arg), [wforms[n] for n in arg]), kind="dict-api-names")
+                    continue
+                for n, X in zip(ln, lm):
+                    ok, why = close_digits(todense(X), Ms[n], 16)
+                    if not ok:
+                        res.viol(case2, "write(filename, mapping): matrix %s differs: %s" % (n, why), kind="dict-api-values")
         return
     if k == "writer-history":
         for seq, m in writer_object_history(res):
